@@ -563,3 +563,31 @@ def public_path(ctx):
                         "subkey_for_path(\"M/44'/0'/0'\"), the usual account-level xpub request, returns the unstripped private child key")
         elif got != want:
             ctx.violate(q, 'path %s on a private key gives %s, expected %s' % ('/'.join(path), got, want), fn)
+
+
+@PROP.obligation('C16.wallet-wif', canaries=[
+    mut.replace_expr('wallets', 'Wallet.wif', 'is_private and self.main_key', 'self.main_key and (is_private or self.main_key.depth == self.depth_public_master)', 'account-key wallets export main_key.wif for public requests'),
+])
+def wallet_wif(ctx):
+    """Wallet.wif(is_private=False) - the default export - never returns self.main_key.wif (WalletKey.wif holds the private extended key of
+    a private wallet): the branch that returns it is evaluated with is_private=False and everything else unknown and must be
+    unreachable."""
+    q = 'wallets:Wallet.wif'
+    fn = ctx.repo.func(q)
+    n = 0
+    for iff in ast.walk(fn):
+        if not isinstance(iff, ast.If):
+            continue
+        rets = [r for r in iff.body if isinstance(r, ast.Return) and r.value is not None and norm(r.value) in ('self.main_key.wif', 'self.main_key.key().wif_private()', 'self.main_key.key_private')]
+        if not rets:
+            continue
+        n += 1
+        it = _interp(ctx.repo, 'wallets', 'wallets:Wallet')
+        st = State(env={'self': S(SELF), 'is_private': False})
+        v = it.truth(it.eval(iff.test, st), st)
+        ctx.saw('`return %s` under `%s`; with is_private=False the test is %s' % (norm(rets[0].value), norm(iff.test), v if isinstance(v, bool) else 'not decided False'))
+        if v is not False:
+            ctx.violate(q, 'with is_private=False the branch `%s` that returns %s can be taken' % (norm(iff.test), norm(rets[0].value)), iff,
+                        'a wallet created from a private account key returns its xprv from wif() / wif(is_private=False)')
+    if not n:
+        ctx.unsure('%s: return of the main key wif not found' % q)
